@@ -79,15 +79,53 @@ def expand_real(cases, repeat=0, exe=None):
     """cases: list of (id, src). Returns {id: result dict}."""
     exe = exe or vtool_path()
     lines = [json.dumps({"id": i, "src": s, **({"repeat": repeat} if repeat else {})}) for i, s in cases]
-    p = subprocess.run([exe, "expand"], input="\n".join(lines) + "\n", capture_output=True, text=True, timeout=3600)
-    if p.returncode != 0:
-        raise RuntimeError("vtool expand crashed rc=%d: %s" % (p.returncode, p.stderr[-2000:]))
+    # The tool answers line by line; a watchdog notices an input on which the macro hangs or takes the
+    # process down (stack overflow), records it as `abort` and restarts after it.
+    import threading, queue
     out = {}
-    for l in p.stdout.splitlines():
-        if l.strip():
-            r = json.loads(l)
-            out[r["id"]] = r
+    pending = list(zip(cases, lines))
+    stall = float(os.environ.get("VERIF_EXPAND_STALL_S", "20"))
+    while pending:
+        proc = subprocess.Popen([exe, "expand"], stdin=subprocess.PIPE, stdout=subprocess.PIPE, stderr=subprocess.DEVNULL, text=True)
+        q = queue.Queue()
+
+        def reader(pr=proc, qq=q):
+            for l in pr.stdout:
+                qq.put(l)
+            qq.put(None)
+
+        def writer(pr=proc, ls=[l for _, l in pending]):
+            try:
+                for l in ls:
+                    pr.stdin.write(l + "\n")
+                pr.stdin.close()
+            except (BrokenPipeError, OSError, ValueError):
+                pass
+
+        threading.Thread(target=reader, daemon=True).start()
+        threading.Thread(target=writer, daemon=True).start()
+        done = 0
+        while done < len(pending):
+            try:
+                l = q.get(timeout=stall)
+            except queue.Empty:
+                break
+            if l is None:
+                break
+            if l.strip():
+                r = json.loads(l)
+                out[r["id"]] = r
+                done += 1
+        proc.kill()
+        proc.wait()
+        if done < len(pending):
+            (i, s), _ = pending[done]
+            out[i] = {"id": i, "outcome": "abort", "message": "the process died or stalled for %.0fs while expanding this input" % stall}
+            pending = pending[done + 1:]
+        else:
+            pending = []
     return out
+
 
 
 def expand_model(real, features=None):
